@@ -149,27 +149,35 @@ def clause_ab(facts, rep, pol):
             out = []
             if c is not None and c.get('k') == 'bin' and c['op'] in ('>', '<=', '<', '>='):
                 l, r = strip(c['l']), strip(c['r'])
-                if l.get('k') == 'bin' and l['op'] == '+' and is_size_field(l['l']) and is_cap_field(r) and strip(l['r']).get('k') == 'ref':
-                    x = strip(l['r'])['id']
+                if l.get('k') == 'bin' and l['op'] == '+' and is_size_field(l['l']) and is_cap_field(r):
                     holds = (c['op'] == '<=' and (sense != neg)) or (c['op'] == '>' and (sense == neg))
                     if holds:
-                        out.append(('fits', x))
+                        out.append(('fits', show(strip(l['r'])), frozenset(x_.get('id') for x_ in walk(l['r']) if x_.get('k') == 'ref')))
+                elif l.get('k') == 'bin' and l['op'] == '+' and is_size_field(l['r']) and is_cap_field(r):
+                    holds = (c['op'] == '<=' and (sense != neg)) or (c['op'] == '>' and (sense == neg))
+                    if holds:
+                        out.append(('fits', show(strip(l['l'])), frozenset(x_.get('id') for x_ in walk(l['l']) if x_.get('k') == 'ref')))
             # successful AddChunk(ChunkSize(x)) : fresh head chunk of capacity >= x and size 0
             if c is not None and c.get('k') == 'call' and c.get('cname') == 'AddChunk' and (sense != neg):
                 a = strip_expect(c['args'][0])
-                if a.get('k') == 'call' and a.get('cname') == 'ChunkSize' and strip(a['args'][0]).get('k') == 'ref':
-                    out.append(('fits', strip(a['args'][0])['id']))
+                if a.get('k') == 'call' and a.get('cname') == 'ChunkSize':
+                    out.append(('fits', show(strip(a['args'][0])), frozenset(x_.get('id') for x_ in walk(a['args'][0]) if x_.get('k') == 'ref')))
             return out
 
         def kill2(s):
             out = []
             for e in walk(strip(s)):
                 if e.get('k') == 'bin' and e['op'] in ('=', '+=', '-=') and strip(e['l']).get('k') == 'ref':
-                    out.append(('fits', strip(e['l'])['id']))
-                if e.get('k') == 'bin' and e['op'] in ('+=', '=') and is_size_field(e['l']):
-                    out.append('*size')
+                    out.append(strip(e['l'])['id'])
             return out
-        M2 = Must(f, gen_edge=fits_edge, kill_stmt=lambda s: [t for t in kill2(s) if t != '*size'])
+        fits_tokens = set()
+
+        def fits_edge_rec(b, cond, sense):
+            r_ = fits_edge(b, cond, sense)
+            fits_tokens.update(r_)
+            return r_
+        Must(f, gen_edge=fits_edge_rec)       # collects the tokens
+        M2 = Must(f, gen_edge=fits_edge, kill_stmt=lambda s: [t for t in fits_tokens if t[2] & set(kill2(s))])
         for bid, i, s, e in f.walk():
             if e.get('k') == 'bin' and e['op'] in ('+=', '=') and is_size_field(e['l']):
                 st = M2.at(bid, i)
@@ -178,10 +186,10 @@ def clause_ab(facts, rep, pol):
                     continue
                 inc = strip(e['r'])
                 n += 1
-                ok_fit = inc.get('k') == 'ref' and ('fits', inc['id']) in st
+                ok_fit = any(t_[0] == 'fits' and t_[1] == show(inc) for t_ in st)
                 rep.check(e['op'] == '+=' and ok_fit, 'E2.bump-in-chunk', f.qn, show(e), locline(e['loc']),
                           'the bump must be dominated by size + x <= capacity or by a successful AddChunk(ChunkSize(x))', facts.config)
-                ok_al = inc.get('k') == 'ref' and sa is not None and ('al', inc['id']) in sa
+                ok_al = sa is not None and aligned_expr(inc, set(t_[1] for t_ in sa if t_[0] == 'al'))
                 rep.check(ok_al, 'E2.bump-aligned', f.qn, 'increment %s is a multiple of 8' % show(inc), locline(e['loc']),
                           'every amount added to the chunk size must come from SONIC_ALIGN (or a difference of such)', facts.config)
     rep.require(n >= 2, 'C16.b: bump sites found: %d (%s)' % (n, pol))
@@ -317,6 +325,20 @@ def clause_a(facts, rep, pol):
                         ok = a is not None and a.get('k') == 'ref' and a.get('dk') in ('param', 'local')
                         used = ok and any(y.get('k') == 'bin' and y['op'] == '=' and strip(y['l']) is not None and strip(y['l']).get('k') == 'member' and strip(y['l']).get('name') == 'capacity'
                                           and any(z.get('k') == 'ref' and z.get('id') == a['id'] for z in walk(y['r'])) for _, _, _, y in g.walk())
+                        if ok and not used:
+                            # ... or through a helper that stores the argument derived from it into the capacity field
+                            for _, _, _, y in g.walk():
+                                if y.get('k') != 'call' or y.get('cid') in (None, f.id):
+                                    continue
+                                h = facts.by_id.get(y['cid'])
+                                if h is None:
+                                    continue
+                                for ai, arg in enumerate(y.get('args') or []):
+                                    if ai < len(h.params) and any(z.get('k') == 'ref' and z.get('id') == a['id'] for z in walk(arg)):
+                                        pid_ = h.params[ai]['id']
+                                        if any(w.get('k') == 'bin' and w['op'] == '=' and strip(w['l']) is not None and strip(w['l']).get('k') == 'member' and strip(w['l']).get('name') == 'capacity'
+                                               and any(z.get('k') == 'ref' and z.get('id') == pid_ for z in walk(w['r'])) for _, _, _, w in h.walk()):
+                                            used = True
                         rep.check(ok and used, 'E5.align-buffer', g.qn, 'chunk capacity is computed from the size variable handed to AlignBuffer', locline(e['loc']), '', facts.config)
     rep.require(n >= 1, 'C16.a: AlignBuffer not found')
     # header sizes aligned
@@ -823,7 +845,7 @@ def clause_pool_model(facts, rep, tier):
 def run(rep, tier):
     configs = [('K1', 'SimpleChunkPolicy')] if tier == 'quick' else [('K1', 'SimpleChunkPolicy'), ('K6', 'AdaptiveChunkPolicy'), ('K5', 'SimpleChunkPolicy')]
     for cfg, pol in configs:
-        facts = get_facts(cfg)
+        facts = get_facts(cfg, norm=True)      # structural rules see through locals that merely name an expression (sv/normalize.py)
         rep.unit(facts)
         # the driver instantiates MemoryPoolAllocator<> (default policy of the configuration)
         pol_in_names = pol if any(pol in f.name for f in facts.functions if f.cls_qn == POOL) else ''
@@ -832,7 +854,7 @@ def run(rep, tier):
         clause_cd(facts, rep, pol_in_names)
         clause_e(facts, rep, pol_in_names)
         round_up_rule(facts, rep)
-        clause_chunk_chain(facts, rep)
+        clause_chunk_chain(get_facts(cfg), rep)      # evaluated: on the bodies as written
     try:
         clause_pool_model(get_facts('K1'), rep, tier)
     except AnalysisBroken as ex:
